@@ -253,6 +253,7 @@ func Prot(b string) world.Req {
 func Guard(b string) world.Req {
 	return world.Req{Browser: b, Method: "GET", Path: "/app/guard", ForceForm: true, Tag: world.Tag{Kind: "guard"}}
 }
+
 // GuardAt requests another path that is served behind the same two middlewares.
 func GuardAt(b, path string) world.Req {
 	return world.Req{Browser: b, Method: "GET", Path: path, ForceForm: true, Tag: world.Tag{Kind: "guard"}}
@@ -287,6 +288,15 @@ func AMailFault(name string, build func(s *world.Stack, w *world.World) world.Re
 	return engine.Action{Name: name + "!fault(mailer.Send)", Run: func(s *world.Stack, w *world.World) *world.Obs {
 		s.MailFault = true
 		defer func() { s.MailFault = false }()
+		return Exec(s, w, build(s, w), forPID)
+	}}
+}
+
+// AMailRenderFault is A with the mail templates failing to render.
+func AMailRenderFault(name string, build func(s *world.Stack, w *world.World) world.Req, forPID string) engine.Action {
+	return engine.Action{Name: name + "!fault(mailrenderer.Render)", Run: func(s *world.Stack, w *world.World) *world.Obs {
+		s.MailRenderFault = true
+		defer func() { s.MailRenderFault = false }()
 		return Exec(s, w, build(s, w), forPID)
 	}}
 }
